@@ -78,6 +78,23 @@ def stream_static(ctx):
         if (f, q, d) not in REVIEWED_DEFAULTS:
             ctx.disagree("static", {"kind": "static", "what": "mutable-default", "function": q, "file": f},
                          f"shared state: `{q}` ({f}) has the mutable default `{d}` — shared by every call that omits the argument")
+    # --- pass 8 (50): creations that name no device
+    REVIEWED_NO_DEVICE = {
+        ("lietensor/lietensor.py", "Parameter.__new__", "torch.tensor([])"),              # `pp.Parameter()` without data: as `nn.Parameter()`
+        ("lietensor/convert.py", "mat2SO3", "torch.tensor(mat)"), ("lietensor/convert.py", "mat2SE3", "torch.tensor(mat)"),      # conversion of a NON-tensor
+        ("lietensor/convert.py", "mat2Sim3", "torch.tensor(mat)"), ("lietensor/convert.py", "mat2RxSO3", "torch.tensor(mat)"),  # argument (lists / numpy):
+        ("lietensor/convert.py", "from_matrix", "torch.tensor(mat)"), ("lietensor/convert.py", "euler2SO3", "torch.tensor(euler)"),  # no operand device exists
+        # OBSERVATION (not exercisable on this CPU-only box, metric code): `torch.zeros(1, dtype=trans.dtype)` is concatenated with
+        # tensors on the trajectory's device — on CUDA trajectories `torch.cat` raises; recorded in notes/C06.md, pass 8
+        ("metric/ape_rpe.py", "StampedSE3.accumulated_distances", "torch.zeros(1, dtype=trans.dtype)"),
+    }
+    nodev = extract.read_nodevice()
+    ctx.count("static.creations_without_device", len(nodev))
+    for f, q, call in nodev:
+        if (f, q, call) not in REVIEWED_NO_DEVICE:
+            ctx.disagree("static", {"kind": "static", "what": "no-device", "function": q, "file": f},
+                         f"device: `{q}` ({f}) creates a tensor with `{call}` — neither `device=` nor the caller's **kwargs: the result is on the default device whatever "
+                         f"device the operands are on")
     if not any(q == "LieTensor.add_" and s for _, q, _, _, s in gen["purity"]):
         ctx.disagree("static", {"kind": "static", "what": "purity-vacuous"}, "the purity analyser no longer sees the in-place API (LieTensor.add_)")
     return gen
